@@ -8,6 +8,11 @@ HOOK_COMMITS = subprocess.run(
 
 CHECKS = {
     # id: (engine, category, technique, text, note, design_ref)
+    "C06": ("S", "model_checking",
+            "stateless schedule exploration (CHESS-style token-passing scheduler over OS threads, DFS over choice sequences) of the real emitters racing the real SSE handlers through the production router",
+            "For the session, task and thread streams (thread with the sidecar present and deleted) every interleaving of the producer's lock/publish/record steps with one subscriber's subscribe / snapshot steps is executed with no preemption bound (two subscribers: preemption bound 2 in quick for sessions, all kinds in thorough); each execution runs the real run_session / TaskEmitter::emit / append_message against the real GET .../events handler, and the frames the subscriber's body yields must be exactly the stream's frames in the log, once, in order.",
+            "Scheduling granularity = hook points; body polling order is not explored (the broadcast receiver buffers everything after subscribe; lag beyond the 16384-frame capacity is outside the quantifier); 3-4 frames per stream; replay determinism is asserted.",
+            "DESIGN.md §3 C06"),
     "C12": ("H-inputs", "exploration",
             "bounded exhaustive input enumeration (patch documents x workspace states) against a reference map model, real apply_patch on a real directory",
             "Every patch of <=2 ops (<=3 on a reduced set in thorough) over a 4-path / 12-hunk-list alphabet plus 16 malformed envelopes is applied by the real Workspace::apply_patch (and the apply_patch tool) to every enumerated workspace state; success must equal the reference map and name exactly the touched files, failure must leave every byte unchanged.",
@@ -74,6 +79,8 @@ def main():
             "add_only": True,
         },
         "engines": [
+            {"name": "S", "path": "/verif/harness/src/sched.rs", "serves_properties": sorted(k for k, v in CHECKS.items() if v[0] == "S"),
+             "kind_free_text": "stateless schedule explorer: cooperative token-passing scheduler over OS threads running the real code, scheduling points at the cfg(rip_verif) hooks, lock predicates on the real locks, DFS with preemption bounding, deterministic replay"},
             {"name": "H-bfs", "path": "/verif/harness/src", "serves_properties": ["C20"],
              "kind_free_text": "bounded exhaustive sequence/input enumeration over the real code (BFS with state keys where futures coincide)"},
             {"name": "H-histories", "path": "/verif/harness/src", "serves_properties": sorted(k for k, v in CHECKS.items() if v[0] == "H-histories"),
